@@ -2,6 +2,63 @@ module github.com/junioryono/godi/v4/verifmc
 
 go 1.24.6
 
-require github.com/junioryono/godi/v4 v4.0.0
+require (
+	github.com/junioryono/godi/v4 v4.0.0
+	github.com/junioryono/godi/v4/chi v0.0.0
+	github.com/junioryono/godi/v4/echo v0.0.0
+	github.com/junioryono/godi/v4/fiber v0.0.0
+	github.com/junioryono/godi/v4/gin v0.0.0
+	github.com/junioryono/godi/v4/http v0.0.0
+	github.com/andybalholm/brotli v1.1.0
+	github.com/bytedance/sonic v1.11.6
+	github.com/bytedance/sonic/loader v0.1.1
+	github.com/cloudwego/base64x v0.1.4
+	github.com/cloudwego/iasm v0.2.0
+	github.com/davecgh/go-spew v1.1.1
+	github.com/gabriel-vasile/mimetype v1.4.3
+	github.com/gin-contrib/sse v0.1.0
+	github.com/gin-gonic/gin v1.10.0
+	github.com/go-playground/locales v0.14.1
+	github.com/go-playground/universal-translator v0.18.1
+	github.com/go-playground/validator/v10 v10.20.0
+	github.com/goccy/go-json v0.10.2
+	github.com/gofiber/fiber/v2 v2.52.6
+	github.com/google/uuid v1.6.0
+	github.com/json-iterator/go v1.1.12
+	github.com/klauspost/compress v1.17.9
+	github.com/klauspost/cpuid/v2 v2.2.7
+	github.com/labstack/echo/v4 v4.13.3
+	github.com/labstack/gommon v0.4.2
+	github.com/leodido/go-urn v1.4.0
+	github.com/mattn/go-colorable v0.1.13
+	github.com/mattn/go-isatty v0.0.20
+	github.com/mattn/go-runewidth v0.0.16
+	github.com/modern-go/concurrent v0.0.0-20180306012644-bacd9c7ef1dd
+	github.com/modern-go/reflect2 v1.0.2
+	github.com/pelletier/go-toml/v2 v2.2.2
+	github.com/pmezard/go-difflib v1.0.0
+	github.com/rivo/uniseg v0.2.0
+	github.com/stretchr/testify v1.11.1
+	github.com/twitchyliquid64/golang-asm v0.15.1
+	github.com/ugorji/go/codec v1.2.12
+	github.com/valyala/bytebufferpool v1.0.0
+	github.com/valyala/fasthttp v1.51.0
+	github.com/valyala/fasttemplate v1.2.2
+	github.com/valyala/tcplisten v1.0.0
+	golang.org/x/arch v0.8.0
+	golang.org/x/crypto v0.31.0
+	golang.org/x/net v0.33.0
+	golang.org/x/sys v0.28.0
+	golang.org/x/text v0.21.0
+	google.golang.org/protobuf v1.34.1
+	gopkg.in/yaml.v3 v3.0.1
+)
 
-replace github.com/junioryono/godi/v4 => /repo
+replace (
+	github.com/junioryono/godi/v4 => /repo
+	github.com/junioryono/godi/v4/chi => /repo/chi
+	github.com/junioryono/godi/v4/echo => /repo/echo
+	github.com/junioryono/godi/v4/fiber => /repo/fiber
+	github.com/junioryono/godi/v4/gin => /repo/gin
+	github.com/junioryono/godi/v4/http => /repo/http
+)
